@@ -450,11 +450,9 @@ public:
         using co_awaiter<subscriber>::co_awaiter;
 
         operator bool() {
-            if (!this->await_ready()) {
-                return this->wait();
-            } else {
-                return this->await_resume();
-            }
+            //wait() would finish through value(), which doesn't fetch the new item
+            this->sync();
+            return this->await_resume();
         }
         bool await_resume() {
             return this->_owner.check_next();
